@@ -968,8 +968,17 @@ func (c *fctx) exprAs(e ast.Expr, to types.Type) ex {
 		if _, toIface := to.Underlying().(*types.Interface); toIface && !types.IsInterface(c.typeOf(e)) {
 			// a concrete value stored in an interface is a non-nil interface
 			x := c.expr(e)
-			if strings.Contains(x.code, "«call:") {
-				fail("traced call inside a value converted to an abstract interface: %s", c.show(e))
+			if _, calls := traceSplit(x.code); len(calls) > 0 {
+				// the calls that make the value stay in the trace (in order), the
+				// value itself is a non-nil interface
+				if x.partial {
+					fail("traced call inside a value converted to an abstract interface: %s", c.show(e))
+				}
+				pre := ""
+				for _, m := range calls {
+					pre += "«call:" + m + "»"
+				}
+				return ex{code: pre + "true"}
 			}
 			return c.bindN([]ex{x}, func([]string) string { return "true" })
 		}
@@ -1181,6 +1190,9 @@ func (c *fctx) expr(e ast.Expr) ex {
 		if len(x.Elts) == 0 && c.t.refAbstract(c.typeOf(x)) && c.t.leanType(c.typeOf(x)) == "Int" {
 			return ex{code: "(0 : Int)"} // zero value of an abstract struct: the token 0
 		}
+		if _, isSt := c.typeOf(x).Underlying().(*types.Struct); isSt && len(x.Elts) == 0 && !c.t.symbolic && !c.t.refs && c.t.valType(c.typeOf(x)) == "Unit" {
+			return ex{code: "()"} // `T{}` of an abstract struct type: a value nothing is known about
+		}
 	}
 	if ix, ok := e.(*ast.IndexExpr); ok {
 		if _, isSl := c.typeOf(ix.X).Underlying().(*types.Slice); isSl && c.t.leanType(c.typeOf(ix.X)) != "" && isInt(c.typeOf(ix.Index)) {
@@ -1311,6 +1323,15 @@ func (c *fctx) structLit(x *ast.CompositeLit, st *types.Struct, lt string) ex {
 		}
 		given[k] = true
 		if c.t.leanType(ft) == "" {
+			if call, isCall := ast.Unparen(kv.Value).(*ast.CallExpr); isCall && (c.matches(c.spec.Pure, call) || c.matches(c.spec.Ignore, call)) {
+				allPure := true
+				for _, a := range call.Args {
+					allPure = allPure && !hasCall(a)
+				}
+				if allPure {
+					continue // a call listed under "pure" / "ignore": no trace entry to lose
+				}
+			}
 			if c.trace && hasCall(kv.Value) {
 				fail("call in dropped field %s", c.show(kv)) // its trace entry would be lost
 			}
@@ -2777,6 +2798,10 @@ func (c *fctx) stmts(list []ast.Stmt) string {
 		out := ""
 		for _, sp := range gd.Specs {
 			vs := sp.(*ast.ValueSpec)
+			if len(vs.Values) == 1 && len(vs.Names) == 1 && len(gd.Specs) == 1 {
+				// `var x T = v` is `x := v` with v converted to T
+				return c.assign(vs.Names[0], c.exprAs(vs.Values[0], c.p.info.Defs[vs.Names[0]].Type()), rest, nil)
+			}
 			if len(vs.Values) > 0 {
 				fail("var with values %s", c.show(x))
 			}
